@@ -30,7 +30,7 @@ Definition items_of (d : db) (p : peer) : list item :=
   flat_map (fun cl => flat_map (fun n =>
       match alg_texts d (fst cl) n with
       | None => []
-      | Some t => [(fst cl, n, shown_name (fst cl) n (pr_hostkeys p) (pr_dh p), t)]
+      | Some t => [(fst cl, n, display (shown_name (fst cl) n (pr_hostkeys p) (pr_dh p)), t)]
       end) (snd cl)) (cat_lists (pr_k p)).
 
 Definition levels_of (its : list item) : list level := flat_map (fun it => map fst (snd it)) its.
@@ -62,7 +62,7 @@ Definition json_items (d : db) (p : peer) : list (string * string * jnotes) :=
 (* ---- decidable equalities used by the correspondence case files ---- *)
 Definition note_eqb (a b : level * string) : bool := level_eqb (fst a) (fst b) && String.eqb (snd a) (snd b).
 Definition item_eqb (a b : item) : bool :=
-  match a, b with (c, n, s, t), (c', n', s', t') => String.eqb c c' && String.eqb n n' && String.eqb s s' && list_eqb note_eqb t t' end.
+  match a, b with (c, n, s, t), (c', n', s', t') => String.eqb c c' && String.eqb (display n) n' && String.eqb s s' && list_eqb note_eqb t t' end.   (* b = parsed from the printed report: its name is the displayed one *)
 Definition rlevel_eqb (a b : rlevel) : bool :=
   match a, b with Critical, Critical | Warning, Warning | Informational, Informational => true | _, _ => false end.
 Definition rec_eqb (a b : recommendation) : bool :=
